@@ -39,10 +39,26 @@ def run(acc, b):
                 if isinstance(val, (real_lock_type, vsched.VLock)):
                     setattr(holder, name, vsched.VLock(sched, name))
                     acc.counters["locks_substituted"] += 1
-        lp = vsched.LinePreemption(sched, code_objects=[f.__code__ for f in fns]).__enter__()
+        # line-level preemption inside the identifier functions and inside the constructors around them (the window between
+        # drawing the identifiers and the request actually existing belongs to the property as well)
+        codes = [f.__code__ for f in fns] + [DiameterRequest.__init__.__code__, B.DiameterHeader.__init__.__code__]
+        lp = vsched.LinePreemption(sched, code_objects=codes).__enter__()
         try:
+            failing = rng.random() < 0.5
+
             def creator(tid):
                 for j in range(per):
+                    if failing and (tid + j) % 3 == 0:
+                        # a creation that is refused after its identifiers were drawn (invalid header field): whatever the
+                        # library does with those two identifiers, the other tasks' requests must stay unique
+                        try:
+                            DiameterRequest(**rng.choice([{"version": 300}, {"command_code": 2 ** 24}, {"application_id": 2 ** 32}, {"version": "x"}]))
+                            acc.observe("invalid-header-field-accepted-by-DiameterRequest")
+                        except vsched.ControlException:
+                            raise
+                        except BaseException:
+                            acc.counters["refused_creations"] += 1
+                        continue
                     m = DiameterRequest(command_code=1 + j, application_id=0)
                     made.append((tid, j, m.header.hop_by_hop, m.header.end_to_end))
             tasks = [sched.spawn("creator%d" % t, creator, t) for t in range(k)]
